@@ -31,6 +31,7 @@ def check(ctx):
     ctx.rule("R4", "exception isolation: handle/handled and send_bytes/sendto are inside try with an `except Exception` that does not re-raise; the thread loop has no other exit than the closed flag")
     ctx.rule("R5", "retry life-cycle: retry() decrements exactly once, refuses at 0, re-queues to last_destination; loop() consults retry only after a timeout and calls on_retry_failed only when retry refused; the default failure handler flags removal; _cleanup_handlers removes exactly the flagged handlers")
     ctx.rule("R6", "removed once answered: the response branch of every request-capable handler sets _should_remove_handler (tabled exceptions: ping, status block)")
+    ctx.rule("R8", "no transmission after the answer: in the engine pass that dispatches the answer the handler's loop() cannot retry - because handled() restarts the timeout on every path, or loop() skips flagged handlers, or the clean-up precedes loop()")
     ctx.rule("R7", "handshake chain: start_connect -> _on_version_received -> _on_channel_received -> _on_config_received -> retry_request -> _final_connect exists and every step both registers and queues its request handler")
 
     # ---- R1 FIFO -------------------------------------------------------------------------
@@ -157,6 +158,32 @@ def check(ctx):
     fc = [(n, c) for n, c in calls_named(gl, "_on_retry_failed")]
     ok = len(fc) == 1 and any(("self.retry(socket)", False) == (t, p) for t, p in gl.guard_atoms(fc[0][0])) if fc else False
     ctx.ob("R5", f"{lpf.qual}::failure-only-when-refused", ok, f"{lpf.qual}: on_retry_failed is not called exactly when retry() refused; guards {sorted(gl.guard_atoms(fc[0][0])) if fc else None}", lpf.loc)
+    # R8: once answered, no further transmission.  Within one engine pass the order is dispatch -> loop() of
+    # every handler -> clean-up, so an answered (flagged) handler still gets a loop() call; it must not retry there.
+    hd = repo.own_method(BASE, "handled")
+    ghd = cfg_of(hd)
+    rs_h = calls_named(ghd, "_reset_timeout")
+    by_reset = any(ghd.pdom(n, ghd.entry) for n, _ in rs_h)
+    flag_atoms = {"self._should_remove_handler", "self.should_remove_handler"}
+    by_guard = bool(rc) and any((t in flag_atoms and p is False) for t, p in gl.guard_atoms(rc[0][0]))
+    ph = [o for o in order if o in ("_process_received_data", "loop", "_cleanup_handlers")]
+    by_order = "_cleanup_handlers" in ph and "loop" in ph and "_process_received_data" in ph and \
+        ph.index("_process_received_data") < ph.index("_cleanup_handlers") < ph.index("loop")
+    why_not = []
+    if not by_reset:
+        g_ = "; ".join(("" if p_ else "not ") + t_ for n_, _ in rs_h for t_, p_ in ghd.guard_atoms(n_)) if rs_h else "no call"
+        why_not.append(f"{hd.qual} restarts the timeout only when [{g_}]")
+    if not by_guard:
+        why_not.append(f"{lpf.qual} does not skip flagged handlers")
+    if not by_order:
+        why_not.append(f"{tf.qual} runs loop() before _cleanup_handlers()")
+    over = [m.qual for cs in repo.classes().values() for c in cs for m in c.methods.values() if m.name in ("handled", "loop") and c.name != BASE and "ProtocolHandler" in c.name]
+    if over:
+        ctx.error(f"R8: handled()/loop() overridden in {over}: the base-class argument does not cover them")
+    ctx.ob("R8", "answered-handler-does-not-retry", by_reset or by_guard or by_order,
+           "an answered request can be transmitted again: its answer is dispatched after its timeout expired, the same engine pass then calls its loop(), which sees the timeout and retries (queueing a send) before the clean-up removes it ["
+           + "; ".join(why_not) + "]", hd.loc,
+           sample={"rule": "R8", "handled_restarts_timeout_on_every_path": by_reset, "loop_skips_flagged": by_guard, "cleanup_before_loop": by_order})
     dfh = repo.own_method(BASE, "_default_retry_failed_handler")
     ok = any(isinstance(n, ast.Assign) and ast.unparse(n.targets[0]).endswith("._should_remove_handler") and repo.try_fold(n.value) is True for n in ast.walk(dfh.node))
     ctx.ob("R5", f"{dfh.qual}::flags-removal", ok, "the default retry-failed handler does not flag the handler for removal", dfh.loc)
